@@ -108,7 +108,8 @@ Loaded == file
 \* the process dies before the pending file-system step; with tornWrite in the middle of a pending write
 Crash(tornWrite) ==
     /\ pc.op # "idle"
-    /\ tornWrite => pc.step = "write" /\ pc.todo # <<>>
+    /\ pc.step = "write" => pc.todo # <<>>      \* "write" with nothing left to write is not a file-system step (the next one is)
+    /\ tornWrite => pc.step = "write"
     \* a fragment in the tmp file is harmless (the next compaction truncates it); a fragment at the end of the
     \* history file is removed by the next session's Load (TornRemoved; with it FALSE the fragment stays and the
     \* next appended line is glued to it - the defect the model first exposed)
@@ -116,7 +117,7 @@ Crash(tornWrite) ==
     /\ UNCHANGED <<file, tmp>>
     /\ mem' = Loaded /\ pc' = [op |-> "idle"] /\ crashed' = TRUE
     /\ ref' = Loaded          \* the reference continues from what was loaded
-    /\ hist' = H([op |-> "crash", f |-> IF tornWrite THEN 1 ELSE 0, a |-> 0, b |-> 0] @@ [point |-> pc.op \o "." \o pc.step, nth |-> pc.k + 1])
+    /\ hist' = H([op |-> "crash", f |-> IF tornWrite THEN 1 ELSE 0, a |-> 0, b |-> 0] @@ [point |-> pc.op \o "." \o pc.step, nth |-> IF pc.step = "write" THEN pc.k + 1 ELSE 1])      \* which occurrence of that step in the operation
     /\ UNCHANGED <<refPrev, nextForm, limit>>
 Restart == /\ Idle /\ mem' = Loaded /\ hist' = H([op |-> "restart", f |-> 0, a |-> 0, b |-> 0])
            /\ UNCHANGED <<file, torn, tmp, ref, refPrev, pc, nextForm, crashed, limit>>
